@@ -373,6 +373,17 @@ namespace Pistache::Aio
                 workers_.emplace_back(std::make_unique<Worker>(reactor, threadsName));
         }
 
+        ~AsyncImpl() override
+        {
+            // Every worker has to be at rest before the first one is taken apart:
+            // a handler that runs on one worker may be using another worker's
+            // handlers (a response completed for a connection that belongs to
+            // another worker). Destroying the workers one after the other joins
+            // only the one that is being destroyed.
+            for (auto& wrk : workers_)
+                wrk->join();
+        }
+
         Reactor::Key addHandler(const std::shared_ptr<Handler>& handler,
                                 bool) override
         {
@@ -498,7 +509,9 @@ namespace Pistache::Aio
                 , threadsName_(threadsName)
             { }
 
-            ~Worker()
+            ~Worker() { join(); }
+
+            void join()
             {
                 if (thread.joinable())
                     thread.join();
